@@ -46,7 +46,9 @@ def install(E):
         from pyvc.values import VClass, PyRaise, Infeasible
         E.sqlite_db_of(ctx)
         try:
-            db = E.instantiate(ctx, None, VClass(TOFU), [VOpaque("path", z3.Int("db_path_id"))], {})
+            db = ctx.alloc(TOFU, {"__constructed__": True})
+            E.inline_call(ctx, f"{TOFU}.__init__", [db, VOpaque("path", z3.Int("db_path_id"))], {})     # the real constructor body, whatever
+            # contract another module (the client session) puts on TOFUDatabase.__init__ for its own callers
         except PyRaise:
             raise Infeasible()
         ctx.ghost["connections_opened"] = [c for c in ctx.ghost.get("connections_opened", [])]
